@@ -183,7 +183,7 @@ type outcome struct {
 }
 
 func (rn *runner) newServer(dir string, worker, cpus int) *proc.Server {
-	return proc.New(proc.Config{Bin: rn.bin, Dir: dir, IP: proc.IP(1, worker), CPUs: cpus, FS: true, FSMatch: "/data/",
+	return proc.New(proc.Config{BGOff: true, Bin: rn.bin, Dir: dir, IP: proc.IP(1, worker), CPUs: cpus, FS: true, FSMatch: "/data/",
 		Extra: map[string][]string{"data": {`write-cold-duration = "1h"`}}})
 }
 
@@ -230,7 +230,7 @@ func (rn *runner) dryRun(hidx int, h []step, worker, cpus int) (trace []mutation
 		return
 	}
 	defer func() { s.Kill(); os.RemoveAll(dir) }()
-	if err := s.WaitReady(90 * time.Second); err != nil {
+	if err := s.WaitReady(180 * time.Second); err != nil {
 		c.Broken("dry run: %v", err)
 		return
 	}
@@ -448,7 +448,7 @@ func (rn *runner) runCase(hidx int, h []step, cc crashCase, worker, cpus int, ca
 		return
 	}
 	defer s.Kill()
-	if err := s.WaitReady(90 * time.Second); err != nil {
+	if err := s.WaitReady(180 * time.Second); err != nil {
 		c.Broken("case start: %v", err)
 		return
 	}
